@@ -419,8 +419,24 @@ def run(ctx: Ctx) -> None:
         raise AnchorError("dds._config.reset_option not found")
     ro = unfacade(ctx, ro)
     n11 = 0
-    for st in ro.own_nodes():
-        if isinstance(st, ast.Assign) and any(isinstance(t, ast.Subscript) for t in st.targets):
+    # the table of option values: the module-level mapping that get_option answers from
+    go = prog.func("dds._config.get_option")
+    tables = set()
+    if go is not None:
+        for r_ in unfacade(ctx, go).own_nodes():
+            if isinstance(r_, ast.Return) and isinstance(r_.value, ast.Subscript) and isinstance(r_.value.value, ast.Name):
+                tables.add(r_.value.value.id)
+    stores11 = [st for st in ro.own_nodes() if isinstance(st, ast.Assign) and any(isinstance(t, ast.Subscript) and isinstance(t.value, ast.Name) and (not tables or t.value.id in tables)
+                                                                                 for t in st.targets)]
+    if tables and not stores11:
+        n11 += 1
+        others = [st for st in ro.own_nodes() if isinstance(st, (ast.Assign, ast.AugAssign))]
+        rep.bad("C05.R11", ro.qname, f"reset_option stores the default into the table get_option reads ({sorted(tables)})", ro.loc(), [
+            f"{ro.loc()}: no assignment `{sorted(tables)[0]}[key] = ...` in reset_option" + (f"; it assigns `{unparse(others[0], 60)}`" if others else ""),
+            "after set_option('accept_list', False) and reset_option('accept_list') the option keeps the value that was set: list variables stay untracked, editing one changes no "
+            "signature and the stale result is served"], "reset-no-store", what="reset_option does not put the default back into the table of option values")
+    for st in stores11:
+        if True:
             n11 += 1
             v = st.value
             if isinstance(v, ast.Name):
@@ -448,6 +464,11 @@ def run(ctx: Ctx) -> None:
             o.rule = "C05.R10/" + o.rule
         for k in [k for k in rep.floors if k.startswith("C13.")]:
             rep.floors["C05.R10/" + k] = rep.floors.pop(k)
+    if rep.prop == "C05":
+        from .c01 import composer_components
+        rep.rule("C05.R15", "as C01.R1: the values of the tracked variables and of the arguments (hashed by the value hasher) are part of every signature they can influence - the "
+                            "return signature of the function and the call-site context of the calls it makes: two values of a tracked variable never share the key of a nested keep")
+        composer_components(ctx, "C05.R15")
     if rep.prop == "C05":
         from .c01 import tracked_type_table
         rep.rule("C05.R12", "as C01.R4: tracked variables of every supported plain type reach the value hasher (a type classified as external is hashed by its name only: "
@@ -807,6 +828,70 @@ def pinned_preimages(ctx: Ctx, rule: str) -> int:
         rep.unknown(rule, outer.qname, "value hasher uses syntax outside the abstract evaluator", outer.loc(), und[:4])
     else:
         rep.ok(rule, outer.qname, desc, outer.loc())
+    return n
+
+
+PINNED_PAIR_LISTS = [
+    ("one pair", [("body", "x0")]),
+    ("two pairs", [("body", "x1"), ("arg_a", "y")]),
+    ("three pairs", [("a", "1"), ("b", "2"), ("c", "3")]),
+    # combinations whose exclusive-or starts with zero digits (the rendering of the number is part of the signature)
+    ("leading zeros 1", [("body", "x12"), ("arg_a", "y")]),
+    ("leading zeros 2", [("body", "x114"), ("arg_a", "y")]),
+    ("leading zeros 3", [("body", "x295"), ("arg_a", "y"), ("body", "x295"), ("arg_a", "y"), ("body", "x295"), ("arg_a", "y")]),
+]
+
+
+def abstract_combination(ctx: Ctx, pairs: Any) -> Tuple[Optional[str], str]:
+    """the text that the order-insensitive combiner returns for a list of (key, signature) pairs, by abstract evaluation of its source"""
+    f = ctx.prog.func("dds.fun_args.dds_hash_commut")
+    if f is None:
+        raise AnchorError("dds.fun_args.dds_hash_commut not found")
+    try:
+        outs = Evaluator(ctx.prog, max_depth=30).run(f, [Const([tuple(p) for p in pairs])])
+    except Exception as e:
+        return None, f"{type(e).__name__}: {e}"
+    vals = set()
+    for o in outs:
+        v = o.value
+        if isinstance(v, Digest):
+            v = Evaluator.fold_digest(v)
+        if o.kind == "return" and isinstance(v, Const) and isinstance(v.v, str):
+            vals.add(v.v)
+        else:
+            return None, f"outcome {o.kind} {o.value!r}"
+    if len(vals) == 1:
+        return next(iter(vals)), ""
+    return None, f"outcomes {sorted(vals)}"
+
+
+def pinned_combinations(ctx: Ctx, rule: str) -> int:
+    """the combiner gives, for a fixed table of pair lists, the pinned texts (ddsverif/pinned_hashes.py): the rendering of the combined number - digits,
+    case, width - is part of every signature that has more than one component"""
+    from ..pinned_hashes import PINNED_COMBINED
+    rep = ctx.report
+    f = ctx.prog.func("dds.fun_args.dds_hash_commut")
+    n = 0
+    bad, und = [], []
+    for label, pairs in PINNED_PAIR_LISTS:
+        want = PINNED_COMBINED.get(label)
+        if want is None:
+            continue
+        got, why = abstract_combination(ctx, pairs)
+        if got is None:
+            und.append(f"dds_hash_commut({label}): {why}")
+            continue
+        n += 1
+        if got != want:
+            bad.append(f"dds_hash_commut({label}) gives {got!r}; pinned {want!r}")
+    desc = f"the {len(PINNED_PAIR_LISTS)} pair lists of the pinned table are combined to the pinned signatures"
+    if bad:
+        rep.bad(rule, f.qname, desc, f.loc(), bad[:4] + ["the signature is the key of the blob and is hashed (as text) into the signatures of the callers: results persisted under the "
+                "pinned rendering by earlier runs or by collaborators are missed and recomputed"], "pinned-combinations", what="the combined signature is rendered differently from the pinned one: persisted signatures drift")
+    elif und:
+        rep.unknown(rule, f.qname, "combiner uses syntax outside the abstract evaluator", f.loc(), und[:4])
+    else:
+        rep.ok(rule, f.qname, desc, f.loc())
     return n
 
 
